@@ -488,7 +488,7 @@ var currentCase atomic.Value
 func faultCase(r *rand.Rand, o *hout.Out, idx int) {
 	buf := []int{0, 1, 10}[r.Intn(3)]
 	role := r.Intn(2) // 0 initiator, 1 acceptor
-	causes := []string{"peer-close", "handler-stop", "local-close", "write-timeout", "bad-message"}
+	causes := []string{"peer-close", "handler-stop", "local-close", "write-timeout", "bad-message", "write-stall-mid-message"}
 	cause := causes[r.Intn(len(causes))]
 	flood := r.Intn(3) > 0
 	sendOut := r.Intn(2) == 0
@@ -550,7 +550,18 @@ func faultCase(r *rand.Rand, o *hout.Out, idx int) {
 			}
 		}()
 	}
-	peerReads := cause != "write-timeout"
+	peerReads := cause != "write-timeout" && cause != "write-stall-mid-message"
+	if cause == "write-stall-mid-message" {
+		// the peer takes a few bytes of an outbound message and then stops reading for good
+		twg.Add(1)
+		take := 1 + r.Intn(7)
+		go func() {
+			defer twg.Done()
+			tmp := make([]byte, take)
+			_ = b.SetReadDeadline(time.Now().Add(2 * time.Second))
+			_, _ = io.ReadFull(b, tmp)
+		}()
+	}
 	if peerReads {
 		twg.Add(1)
 		go func() {
@@ -570,7 +581,7 @@ func faultCase(r *rand.Rand, o *hout.Out, idx int) {
 			}
 		}()
 	}
-	if sendOut || cause == "write-timeout" {
+	if sendOut || cause == "write-timeout" || cause == "write-stall-mid-message" {
 		twg.Add(1)
 		go func() {
 			defer twg.Done()
@@ -615,8 +626,8 @@ func faultCase(r *rand.Rand, o *hout.Out, idx int) {
 		} else {
 			acc.Close()
 		}
-	case "write-timeout":
-		// nothing to do: the peer does not read, the write deadline expires
+	case "write-timeout", "write-stall-mid-message":
+		// nothing to do: the peer does not read (any more), the write deadline expires
 	case "bad-message":
 		// a well-framed message without a MsgType field: DefaultHandler.serve fails, Run returns its error
 		_ = b.SetWriteDeadline(time.Now().Add(300 * time.Millisecond))
@@ -690,7 +701,7 @@ func faultCase(r *rand.Rand, o *hout.Out, idx int) {
 	for i := 0; i < 100 && atomic.LoadInt32(&notified) == 0; i++ {
 		time.Sleep(10 * time.Millisecond)
 	}
-	if (cause == "peer-close" || cause == "write-timeout") && atomic.LoadInt32(&notified) == 0 {
+	if (cause == "peer-close" || cause == "write-timeout" || cause == "write-stall-mid-message") && atomic.LoadInt32(&notified) == 0 {
 		o.Fail("C13", "no-disconnect-notification", desc)
 	}
 	o.Count("C13." + desc[:strings.Index(desc, " buffer")])
